@@ -5,6 +5,7 @@
      op = w <hex> <answers>                    write_soon(bytes)
         | f <contenthex> <pos> <size|none> <answers>   write_soon(ReadOnlyFileBasedBuffer(file).prepare(size))
         | x <answers>                          _flush_some()
+        | c <answers>                          send_continue()
      answers = "-" | a,a,...   a = <k> (socket accepts min(k, len(chunk)) bytes) | R (socket.send raises)
    Answer: one field per op, joined by " | ":
      wire=<hex> stop=<stop> ret=<0|1> total=<n> cur=<n> bufs=<kind><len>,...     kind O / R *)
@@ -58,6 +59,7 @@ let handle (ws : string list) : string =
            | Ok (rb, _) -> Some (CWrite (WFile rb, answers a))
            | Exn _ -> None)
         | ["x"; a] -> Some (CFlush (answers a))
+        | ["c"; a] -> Some (CContinue (answers a))
         | _ -> failwith "bad op" in
       match p with
       | None -> "prepare-raised"
